@@ -293,6 +293,23 @@ def bounded(seed, quick):
                 near_tie = any(abs(conf_r(q, int(n_), float(p_)) - c_) < 1e-9 for q in (r_, r_ + 1, best))
                 if r_ != best and not near_tie:
                     return ev, dict(what="order_stats('r') (broadcast call) does not return the largest rank meeting the confidence", p=float(p_), c=float(c_), n=int(n_), got=r_, want=int(best))
+    # order statistics 'p' over the whole range of ranks (1 .. n, i.e. also below the sample median) and confidences on both sides of 0.5: the returned coverage solves
+    # P(at least r of n exceed the p-quantile) = sum_{j>=r} C(n,j) (1-p)^j p^(n-j) == c, and decreases as the rank grows
+    for n_ in (5, 10, 23):
+        for c_ in (0.1, 0.4, 0.5, 0.75, 0.9, 0.99):
+            prev = None
+            for r_ in range(1, n_ + 1):
+                with warnings.catch_warnings():
+                    warnings.simplefilter("ignore")
+                    pr_ = float(stats.order_stats("p", c=c_, r=r_, n=n_))
+                ev += 1
+                got_c = conf_r(r_, n_, pr_)
+                if not (0.0 <= pr_ <= 1.0) or abs(got_c - c_) > 1e-7:
+                    return ev, dict(what="order_stats('p'): the returned coverage does not solve the confidence statement (confidence of the returned p is %.6f, requested %.6f)" % (got_c, c_),
+                                    c=c_, r=r_, n=n_, p=pr_)
+                if prev is not None and pr_ > prev + 1e-12:
+                    return ev, dict(what="order_stats('p') is not decreasing in the rank", c=c_, n=n_, r=r_, p=pr_, p_of_previous_rank=prev)
+                prev = pr_
     # order statistics with 2-D arguments in any memory layout (C order, Fortran order, transposed views): every element solves its own (c, r, n) / (p, c, n) problem
     from scipy.stats import beta as _beta
     C2 = np.array([[0.5, 0.9, 0.95], [0.6, 0.75, 0.99]])
